@@ -2,7 +2,7 @@ import GardenVerif.Driver.Sexp
 import GardenVerif.Driver.Machine
 import GardenVerif.Model.Session
 /-! Driver op for M6:
-`session_run <pinned|patched|s,r,a,i flags> <fuel> <interrupt ticks|-> <request sexprs…>`.
+`session_run <pinned|patched|s,r,a flags> <fuel> <interrupt ticks|-> <request sexprs…>`.
 
 Requests:
   `(run <id|-> h<hex input> (astx …) <(astx …)|noargs>)`  — the raw input, the `astx` dump of the
@@ -118,7 +118,7 @@ def cfgOf (s : String) : Option Cfg :=
   if s == "pinned" then some Cfg.pinned
   else if s == "patched" then some Cfg.patched
   else match s.splitOn "," with
-    | [a, b, c, d] => some ⟨a == "1", b == "1", c == "1", d == "1"⟩
+    | [a, b, c] => some ⟨a == "1", b == "1", c == "1"⟩
     | _ => none
 
 def runAll (cfg : Cfg) (fuel : Nat) (st : Session.State) (reqs : List Req) (acc : Array String) :
